@@ -9,7 +9,11 @@ A case is a JSON description of a class hierarchy (<= 6 component classes) plus 
                             "extend": true|false|[earlier indices]}      (every key optional),
                   "pairs": {"template"|"js"|"css": ["i", k] inline | ["f", k] `_file` form | ["b", k, k2] both},
                   "loc":   "none" (module without __file__) | "out" (module file outside COMPONENTS.dirs) |
-                           "pkg" (module file inside a sub-directory of the scratch components dir)}],
+                           "pkg" (module file inside a sub-directory of the scratch components dir),
+                  "nm":    own index (a name of its own, the default) | index j of an earlier class: this class is a
+                           DISTINCT class with the same `__module__`, `__name__` and `__qualname__` as class j (what one
+                           factory function called twice, `type("X", ...)` in a loop or a re-defined class produce);
+                           it lives in class j's module ("loc" follows j)}],
      "orders":  [[[class idx, attribute, on_instance], ...], ...]}
 
 Every order is run on a *fresh copy* of the hierarchy (new classes, new Media classes, new module
@@ -31,6 +35,8 @@ Reference model (independent of component_media.py):
 * relative files: a name that exists next to the component's module file (loc "pkg", name in "local") is
   used as "<pkgdir>/<name>" (docs: "preference goes to resolving the files relative to the component's
   directory"), for Media entries of the class that owns the Media and for `_file` attributes.
+* names play no role: the model never looks at "nm", so every class - also one that shares module and qualified
+  name with another live class of the hierarchy - is judged against its OWN declaration.
 """
 import itertools
 import os
@@ -47,10 +53,15 @@ RULE = (
     "greedily against plain Python mirror classes; Media absent / None / empty / js str|list / css str|list|dict; "
     "extend absent/True/False/list of earlier classes; 6 js + 6 css file names so sharing is common; "
     "template|template_file, js|js_file, css|css_file incl. both-in-one-class; module file outside or inside the "
-    "scratch components dir with a generated subset of the files present next to it). Each hierarchy is built as "
+    "scratch components dir with a generated subset of the files present next to it; in 2 of 5 generated hierarchies "
+    "about half of the classes are DISTINCT classes carrying the __module__, __name__ and __qualname__ of an earlier "
+    "class - one factory called several times / type() in a loop / a re-defined class - half of them with the name "
+    "giver's bases, each with its own Media and judged against its own declaration). Each hierarchy is built as "
     "fresh classes once per access order (a base-first read-out plus 3 generated orders of .media/.js/.css/.template "
     "on classes and instances; small hierarchies: all permutations) and compared with a set/order/MRO reference "
-    "model and across copies. Hierarchies of <= 3 classes over a reduced alphabet are enumerated completely. "
+    "model and across copies. Hierarchies of <= 3 classes over a reduced alphabet are enumerated completely, and so "
+    "are the hierarchies of <= 3 classes in which at least one class shares its import path with an earlier one "
+    "(enum_twin, all permutations of the first .media access on classes and instances). "
     "Non-trivial = (a diamond or a non-empty extend list) and >= 2 classes declaring the same file in the same "
     "js/css-media-type category; distinct by the hash of the normalised class list (+ local files)."
 )
@@ -62,10 +73,13 @@ ASSUMPTIONS = [
     "an empty string counts as a defined member of a pair (the member is not None)",
     "CSS media types whose merged list is empty are ignored when comparing",
     "file names that exist next to the component module are compared in their rewritten '<dir>/<name>' form",
+    "two live classes may share module and qualified name (factory-made / re-defined classes): the statement speaks of classes, "
+    "not of names, so each is judged by its own declaration; only .media/.js/.css/.template are read (nothing that goes "
+    "through the name-derived class hash, i.e. no rendering of dependencies), and such classes share one module object",
 ]
 BOUNDS = {
-    "quick": {"hyp_examples": 6000, "exh_classes": 3, "exh_bodies": 4, "exh_pairs_full": 0, "orders_per_case": 4},
-    "thorough": {"hyp_examples": 150000, "exh_classes": 3, "exh_bodies": 9, "exh_pairs_full": 1, "orders_per_case": 4},
+    "quick": {"hyp_examples": 6000, "exh_classes": 3, "exh_bodies": 4, "exh_pairs_full": 0, "exh_twin_bodies": 3, "orders_per_case": 4},
+    "thorough": {"hyp_examples": 150000, "exh_classes": 3, "exh_bodies": 9, "exh_pairs_full": 1, "exh_twin_bodies": 6, "orders_per_case": 4},
 }
 
 JS_POOL = ["a.js", "b.js", "c.js", "d.js", "e.js", "f.js"]
@@ -153,7 +167,12 @@ def normalize(case):
                 else:
                     pairs[p] = ["b", int(v[1]) % len(INLINE[p]), int(v[2]) % 2]
         loc = c.get("loc") if c.get("loc") in LOCS else "none"
-        nc = {"bases": bases, "media": m, "pairs": pairs, "loc": loc}
+        nm = c.get("nm")
+        if isinstance(nm, int) and not isinstance(nm, bool) and 0 <= nm < i and nm not in rejected and classes[nm]["nm"] == nm:
+            loc = classes[nm]["loc"]  # same import path = same module
+        else:
+            nm = i
+        nc = {"bases": bases, "media": m, "pairs": pairs, "loc": loc, "nm": nm}
         if _rejected(nc):
             rejected.add(i)
         classes.append(nc)
@@ -356,7 +375,17 @@ class Model:
             and cl[self.owner[i]]["media"].get("extend", True) is not True
             for i in live
         )
+        # distinct live classes with one import path (same module, same qualified name)
+        twins = [(i, cl[i]["nm"]) for i in live if cl[i]["nm"] != i and cl[i]["nm"] in live]
+
+        def merged(i):
+            return (sorted(self.js_set[i]), sorted((t, sorted(v)) for t, v in self.css_sets[i].items()), self.selected[i])
+
+        twin_set = {i for i, _ in twins} | {j for _, j in twins}
         return {
+            "same_name": bool(twins),
+            "same_name_differs": any(merged(i) != merged(j) for i, j in twins),
+            "same_name_is_base": any(b in twin_set for i in live for b in self.selected[i]),
             "diamond": diamond,
             "ext_list": ext_list,
             "ext_false": ext_false,
@@ -438,7 +467,8 @@ class _Copy:
         from django_components import Component
 
         for i, c in enumerate(self.case["classes"]):
-            attrs = {"__module__": self.modname(c["loc"]), "__qualname__": "C16_%s_K%d" % (self.tag, i)}
+            # "nm" = index of the class whose name this one carries (its own index unless it is a same-named twin)
+            attrs = {"__module__": self.modname(c["loc"]), "__qualname__": "C16_%s_K%d" % (self.tag, c["nm"])}
             m = c["media"]
             if m == "null":
                 attrs["Media"] = None
@@ -468,7 +498,7 @@ class _Copy:
                     both.append(p)
             bases = tuple(self.real[b] for b in c["bases"]) or (Component,)
             try:
-                cls = type("K%d" % i, bases, attrs)
+                cls = type("K%d" % c["nm"], bases, attrs)
             except ImproperlyConfigured as e:
                 if both:
                     self.real.append(None)
@@ -563,6 +593,12 @@ def _cmp_value(model, i, attr, value, where, fails):
     return False
 
 
+def _cname(case, i):
+    """Reporting name: classes are always referred to by their index; a same-named twin says whose name it carries."""
+    nm = case["classes"][i]["nm"]
+    return "K%d" % i if nm == i else "K%d(a distinct class named like K%d)" % (i, nm)
+
+
 def run_copy(case, model, order, fails):
     """Build a fresh copy, perform `order`, then read everything. Returns the read-out or None."""
     cp = _Copy(case)
@@ -573,7 +609,7 @@ def run_copy(case, model, order, fails):
             cls = cp.real[ci]
             if cls is None:
                 continue
-            where = "order step %d (%s.%s%s)" % (step, "K%d" % ci, attr, " on an instance" if inst else "")
+            where = "order step %d (%s.%s%s)" % (step, _cname(case, ci), attr, " on an instance" if inst else "")
             try:
                 obj = cls() if inst else cls
                 v = getattr(obj, attr)
@@ -590,7 +626,7 @@ def run_copy(case, model, order, fails):
             if cls is None:
                 out.append(None)
                 continue
-            where = "read-out of K%d after order %r" % (i, order)
+            where = "read-out of %s after order %r" % (_cname(case, i), order)
             try:
                 media = cls.media
                 vals = {a: getattr(cls, a) for a in VALUE_ATTRS}
@@ -631,7 +667,7 @@ def check_case(case):
                     a, b = dict(base[i]), dict(out[i])
                     a.pop("vals"), b.pop("vals")
                     fails.append(
-                        ("class K%d: results differ between access orders: base-first read-out gives %r, after order %r it is %r" % (i, a if a != b else base[i]["vals"], order, b if a != b else out[i]["vals"]), "access-order")
+                        ("class %s: results differ between access orders: base-first read-out gives %r, after order %r it is %r" % (_cname(case, i), a if a != b else base[i]["vals"], order, b if a != b else out[i]["vals"]), "access-order")
                     )
                     break
     finally:
@@ -814,6 +850,36 @@ def enum_edge(n):
         yield case
 
 
+TWIN_MEDIA = [
+    None,
+    {"js": ["a.js"]},
+    {"js": ["b.js"], "extend": False},
+    {"js": ["b.js", "a.js"], "css": "a.css"},
+    {"css": {"print": ["a.css"]}, "extend": True},
+    "null",
+]
+
+
+def enum_twin(n, nbodies):
+    """Distinct classes sharing one import path: every hierarchy of exactly n <= 3 classes over the reduced alphabet
+    TWIN_MEDIA[:nbodies] (+ one extend list per earlier class) in which at least one class carries the module and
+    qualified name of an earlier one; all permutations of the first access of `.media`."""
+
+    def opts(i):
+        medias = list(TWIN_MEDIA[:nbodies]) + [{"js": ["c.js"], "extend": [b]} for b in range(i)]
+        return [(b, m, nm) for b in _base_opts(i) for m in medias for nm in [i] + list(range(i))]
+
+    for combo in itertools.product(*[opts(i) for i in range(n)]):
+        if all(nm == i for i, (_, _, nm) in enumerate(combo)):
+            continue
+        raw = {"classes": [{"bases": b, "media": m, "pairs": {}, "loc": "out" if i % 2 else "none", "nm": nm} for i, (b, m, nm) in enumerate(combo)]}
+        case = normalize(raw)
+        if any(c["bases"] != r["bases"] or c["nm"] != r["nm"] for c, r in zip(case["classes"], raw["classes"])):
+            continue  # repaired base list / name reference: identical to another enumerated hierarchy
+        case["orders"] = [[[c, "media", c % 2] for c in p] for p in itertools.permutations(range(n))][1:]
+        yield case
+
+
 # ---------------------------------------------------------------------------
 # Hypothesis strategy
 
@@ -855,9 +921,18 @@ def case_strategy(pkg, n_orders=3):
             k = min(i, max(lo, draw(_w(st, (0, 1), (1, 5), (2, 5), (3, 2)))))
             return draw(st.lists(st.integers(0, i - 1), unique=True, min_size=k, max_size=k)) if i else []
 
+        # "factory" hierarchies: some classes are distinct classes carrying the module + qualified name of an earlier
+        # one (one factory called several times, type() in a loop, a re-defined class), usually with another Media
+        factory = draw(_w(st, (1, 2), (0, 3)))
+
         classes = []
         for i in range(n):
             c = {"bases": idx_list(i, 0) if draw(_w(st, (1, 9), (0, 1))) else []}
+            if factory and i and draw(_w(st, (1, 1), (0, 1))):
+                j = draw(st.integers(0, i - 1))
+                c["nm"] = j = classes[j].get("nm", j)
+                if draw(_w(st, (1, 1), (0, 1))):  # the factory idiom: same bases, another Media
+                    c["bases"] = list(classes[j]["bases"])
             mk = draw(_w(st, ("absent", 3), ("null", 1), ("empty", 1), ("full", 11)))
             if mk == "absent":
                 c["media"] = None
@@ -897,7 +972,7 @@ def case_strategy(pkg, n_orders=3):
             if draw(_w(st, (0, 39), (1, 1))):  # rare: a class that must be rejected
                 pairs[draw(st.sampled_from(PAIRS))] = ["b", draw(st.integers(0, 2)), draw(st.integers(0, 1))]
             c["pairs"] = pairs
-            c["loc"] = draw(_w(st, ("pkg", 4), ("out", 1), ("none", 1))) if pkg else draw(st.sampled_from(LOCS[:2]))
+            c["loc"] = draw(_w(st, ("pkg", 4), ("out", 1), ("none", 1))) if pkg else draw(st.sampled_from(LOCS[:2]))  # twins: loc of the name giver
             classes.append(c)
         access = st.tuples(
             st.integers(0, n - 1),
@@ -918,8 +993,8 @@ def case_strategy(pkg, n_orders=3):
 # plan / shards
 
 SHARDS = {
-    "quick": {"enum_media": 12, "enum_pairs": 3, "enum_pkg": 4, "hyp_flat": 10, "hyp_pkg": 6},
-    "thorough": {"enum_media": 16, "enum_pairs": 8, "enum_pkg": 2, "hyp_flat": 14, "hyp_pkg": 7},
+    "quick": {"enum_media": 12, "enum_pairs": 3, "enum_pkg": 4, "enum_twin": 3, "hyp_flat": 10, "hyp_pkg": 6},
+    "thorough": {"enum_media": 16, "enum_pairs": 8, "enum_pkg": 2, "enum_twin": 8, "hyp_flat": 14, "hyp_pkg": 7},
 }
 HYP_CHUNK = 2500  # examples per Hypothesis run inside one shard (bounds the memory of Hypothesis' choice tree)
 
@@ -944,6 +1019,8 @@ def plan(tier, seed, scale=1.0):
         specs.append({"kind": "enum_pairs", "shard": sh, "of": sh_n["enum_pairs"], "nmax": b["exh_classes"], "full": b["exh_pairs_full"]})
     for sh in range(sh_n["enum_pkg"]):
         specs.append({"kind": "enum_pkg", "shard": sh, "of": sh_n["enum_pkg"]})
+    for sh in range(sh_n["enum_twin"]):
+        specs.append({"kind": "enum_twin", "shard": sh, "of": sh_n["enum_twin"], "nmax": b["exh_classes"], "bodies": b["exh_twin_bodies"]})
     specs.append({"kind": "enum_edge", "shard": 0, "of": 1})
     for sh in range(4):
         specs.append({"kind": "enum_chain", "shard": sh, "of": 4})
@@ -984,6 +1061,9 @@ def run_shard(spec):
     if kind == "enum_edge":
         gen = itertools.chain.from_iterable(enum_edge(n) for n in (1, 2))
         return _run_enum(col, gen, spec, "enum_edge")
+    if kind == "enum_twin":
+        gen = itertools.chain.from_iterable(enum_twin(n, spec["bodies"]) for n in range(2, spec["nmax"] + 1))
+        return _run_enum(col, gen, spec, "enum_twin")
     if kind == "enum_chain":
         return _run_enum(col, enum_chain(), spec, "enum_chain")
     if kind == "hyp":
